@@ -233,13 +233,16 @@ bool World::field_rule(int f, const dj::track_snapshot& s, const dj::track_snaps
             std::optional<unsigned long long> cnt = setter ? r.sample_count : s.sample_count;
             std::optional<double> rate = setter ? r.sample_rate : s.sample_rate;
             if (!cnt || !rate)
-                return true;  // undefined by the statement (C15 covers safety)
+            {
+                cnt = cnt.value_or(0);
+                rate = rate.value_or(0);
+            }
             auto ext = eng::calculate_overview_waveform_extents(*cnt, *rate);
-            if (ext.size == 0)
-                return r.waveform.empty() || fail("empty (no quantisable audio)");
-            if (r.waveform.size() != ext.size)
+            if (ext.size == 0 && r.waveform.empty())
+                return true;  // no quantisable audio: an empty overview is acceptable
+            if (r.waveform.size() != 1024)
                 return fail("1024-point overview");
-            for (size_t i = 0; i < ext.size; ++i)
+            for (size_t i = 0; i < 1024; ++i)
             {
                 auto e = s.waveform[s.waveform.size() * (2 * i + 1) / 2048];
                 auto& g = r.waveform[i];
@@ -338,6 +341,14 @@ void World::after_step(const StepEffect& e)
 {
     log.str(e.out.threw ? "threw:" + e.out.exc : "ok");
     gate_log.str(e.out.threw ? "threw:" + e.out.exc : "ok");
+    last_call.valid = true;
+    last_call.threw = e.out.threw;
+    last_call.fault_fired = e.out.fault_fired;
+    last_call.stmts = e.out.stmts;
+    last_call.ticks = e.out.ticks;
+    last_call.mallocs = e.out.mallocs;
+    last_call.vfs = e.out.vfs;
+    last_call.opname = e.op;
     if (!db || stop)
         return;
     bool faulted = e.out.fault_fired;
@@ -345,7 +356,7 @@ void World::after_step(const StepEffect& e)
         probes.hit("fault_fired_in_step");
     // C14: a statement error must surface as an exception
     if (faulted && !e.out.threw && e.out.step_errors > 0)
-        report("C14", "C14|" + e.op + "|" + fam() + "|error-swallowed",
+        report("C14", "C14|" + e.op + "|" + fam() + "|error-swallowed|" + fault_site(e.fault),
                "a statement failed inside " + e.op + " but the call returned normally");
     bool purity = check(CK_PURITY) && !faulted && e.out.step_errors == 0;
     if (purity)
@@ -371,11 +382,15 @@ void World::after_step(const StepEffect& e)
         if (e.expect_unchanged)
         {
             std::string a = prev.serialize(), b = cur.serialize();
-            if (a != b)
+            bool post_commit = faulted && e.fault.kind != FK_STMT && have_accept_post &&
+                               cur.hash() == accept_post_hash;
+            if (a != b && !post_commit)
             {
                 bool by_fault = faulted || e.out.step_errors > 0;
                 std::string prop = by_fault ? "C14" : e.prop;
-                report(prop, prop + "|" + e.op + "|" + fam() + (by_fault ? "|partial-update" : "|rejected-but-changed"),
+                report(prop,
+                       prop + "|" + e.op + "|" + fam() +
+                           (by_fault ? "|partial-update|" + fault_site(e.fault) : "|rejected-but-changed"),
                        e.op + " threw " + e.out.exc + " but the observable state changed: " + first_diff_line(a, b));
             }
             else if (faulted)
@@ -404,7 +419,7 @@ void World::after_step(const StepEffect& e)
                         if (pf[i].first == "containing_crates")
                             continue;  // decided by the membership model (C08)
                         std::string prop = e.prop.empty() ? "C06" : e.prop;
-                        if (e.op == "set")
+                        if (e.op.compare(0, 4, "set_") == 0 && e.prop == "C06")
                             prop = "C06";
                         report(prop,
                                prop + "|" + e.op + "|" + fam() + (target ? "|other-field:" : "|other-track:") + pf[i].first,
